@@ -65,6 +65,7 @@ class Zoo:
         self.tables = {}    # name -> Table
         self.rels = {}      # (owner class name, rel name) -> RelInfo
         self.view_rels = {}  # (owner, name) -> RelInfo of viewonly relationships (not in .rels)
+        self.sub_rels = {}   # (owner, name) -> RelInfo of relationships targeting a subclass (not in .rels)
         self.cols = {}      # class name -> [column attribute names]  (own + inherited)
         self.knobs = {}
         self.e_kind = None
@@ -75,9 +76,14 @@ class Zoo:
         k = (owner, name)
         if k in self.rels:
             return self.rels[k]
+        if k in self.sub_rels:
+            return self.sub_rels[k]
         if owner in ("Eng", "Mgr"):
             return self.rels[("E", name)]
         raise KeyError(k)
+
+    def sub_relnames(self, owner):
+        return [n for (o, n) in self.sub_rels if o == owner]
 
     def relnames(self, owner):
         base = "E" if owner in ("Eng", "Mgr") else owner
@@ -105,7 +111,9 @@ def build_zoo(rng, knobs=None):
                   sa.Column("parent_id", sa.ForeignKey("a.id"), nullable=True))
     tb = sa.Table("b", md, sa.Column("id", I, primary_key=True),
                   sa.Column("a_id", sa.ForeignKey("a.id"), nullable=True),
-                  sa.Column("pos", I), sa.Column("val", S(20)))
+                  sa.Column("pos", I), sa.Column("val", S(20)),
+                  # references the *base* table of the E hierarchy: may name an E, Eng or Mgr row
+                  sa.Column("lead_id", sa.ForeignKey("e.id"), nullable=True))
     tc = sa.Table("c", md, sa.Column("id", I, primary_key=True),
                   sa.Column("b_id", sa.ForeignKey("b.id"), nullable=True), sa.Column("q", I))
     tt = sa.Table("t", md, sa.Column("id", I, primary_key=True), sa.Column("label", S(20)))
@@ -219,7 +227,14 @@ def build_zoo(rng, knobs=None):
             "B", "cs", "C", True, [[(tc.c.q, 0), (tc.c.id, 1)], [(tc.c.id, 0)]],
             direction="o2m", fk_table="c", fk_col="b_id")),
         "expr": orm.query_expression(),
+        # many-to-one that targets a *subclass* of the polymorphic hierarchy while the
+        # foreign key may point at base / sibling rows: those must load as None
+        "lead": orm.relationship(Eng, foreign_keys=[tb.c.lead_id],
+                                 lazy=knob("lazy_B_lead", scal_lazy)),
     })
+    z.sub_rels[("B", "lead")] = RelInfo(owner="B", name="lead", target="Eng", uselist=False, total=False,
+                                        coll="list", lazy=k["lazy_B_lead"], nullable_fk=True, direction="m2o",
+                                        fk_table="b", fk_col="lead_id")
     reg.map_imperatively(C, tc, properties={
         "b": orm.relationship(B, back_populates="cs", **relkw(
             "C", "b", "B", False, direction="m2o", fk_table="c", fk_col="b_id")),
@@ -326,6 +341,8 @@ def gen_population(zoo, rng, scale=1):
             row["lang"] = lang if ty == "eng" else None
             row["level"] = level if ty == "mgr" else None
         pop["e"].append(row)
+    for b in pop["b"]:
+        b["lead_id"] = rng.choice([None] + [r["id"] for r in pop["e"]] * 2)
     return pop
 
 
